@@ -1134,6 +1134,17 @@ func (data *Data) Clone() *Data {
 	other.Databases = data.CloneDatabases()
 	other.Users = data.CloneUsers()
 
+	// The node lists are modified in place (e.g. when a data node's addresses
+	// are updated), so the copy needs its own backing arrays.
+	if data.MetaNodes != nil {
+		other.MetaNodes = make([]NodeInfo, len(data.MetaNodes))
+		copy(other.MetaNodes, data.MetaNodes)
+	}
+	if data.DataNodes != nil {
+		other.DataNodes = make([]NodeInfo, len(data.DataNodes))
+		copy(other.DataNodes, data.DataNodes)
+	}
+
 	return &other
 }
 
